@@ -1,5 +1,5 @@
 // Driver for property C09 (spec/utility/ValueBox.tla, ValueBoxEnv.tla).
-// Input line: {"id":..,"variant":"int|double|string|vector|over|tracked","nt":..,"nu":..,"na":..,"h":[...]}
+// Input line: {"id":..,"variant":"int|double|string|vector|over|tracked","nt":..,"nu":..,"na":..,["events":true,]"h":[...]}
 // See world.h.  The GetEnv action (getEnvVar<T> returns an Optional<T>) is handled here.
 #include <cmath>
 #include <cstdlib>
@@ -48,6 +48,7 @@ struct World
     else if (v == "over") w = vb::makeWorldOver(nt, nu, na);
     else if (v == "tracked") w = vb::makeWorldTracked(nt, nu, na);
     else w = vb::makeWorldInt(nt, nu, na);
+    w->setEmitEvents(hist.has("events") && hist["events"].boolean());
   }
   ~World() { delete w; }
   Json step(const Json &act)
